@@ -166,6 +166,20 @@ def check_entropy(ctx, case):
         ctx.disc('to_seed.mismatch', 'Mnemonic(%r).to_seed(%r, password=%r) = %s.., BIP39 seed is %s..' %
                  (lang, text, pw, bytes(seed).hex()[:16], want_seed.hex()[:16]), case, kf=seed_kf(bytes(seed)))
 
+    # 3b. the same passphrase handed over as UTF-8 bytes (the method accepts them): the text is what counts, the seed
+    # is the same - or the call is refused
+    if pw and 'pw_bytes' in opts:
+        try:
+            seed_b = bytes(m.to_seed(text, pw.encode('utf8')))
+        except Exception as e:
+            ctx.refusal('to_seed.bytes_passphrase.%s' % type(e).__name__)
+        else:
+            ctx.klass('seed.passphrase_as_bytes' + ('.not_nfkd' if nfkd(pw) != pw else ''))
+            if seed_b != want_seed:
+                ctx.disc('to_seed.mismatch.bytes_passphrase', 'Mnemonic(%r).to_seed(%r, password=%r as UTF-8 bytes) = '
+                         '%s.., BIP39 seed is %s..' % (lang, text, pw, seed_b.hex()[:16], want_seed.hex()[:16]), case,
+                         kf=seed_kf(seed_b))
+
     # 4. the default instance (what HDKey.from_passphrase, Wallet.create and the tools use)
     if 'default_instance' in opts:
         try:
@@ -517,7 +531,7 @@ def entropy_strategy():
                 'passphrase': pw, 'opts': sorted(opts), 'network': net}
     return st.tuples(st.sampled_from(LANGS + ['japanese']), entropies(), st.sampled_from(['bytes', 'bytes', 'hex']),
                      st.sampled_from(['lib', 'nfc', 'ideographic']), passphrases(),
-                     st.sets(st.sampled_from(['reparse', 'default_instance', 'key']), max_size=2),
+                     st.sets(st.sampled_from(['reparse', 'default_instance', 'key', 'pw_bytes', 'pw_bytes']), max_size=2),
                      gen.networks()).map(build)
 
 
